@@ -20,6 +20,13 @@ L3 : written from the property text with numpy only (no Lean, no dadi internals)
      sharing (sample sizes, grid objects, F, ploidy) that run through the options (ascertained / plain / F = 0 / direct /
      semi-analytic / admix / look-alike grid / other F / other ploidy / repeats), every call checked on its own; the failing
      input carries the preceding calls (`history`) and the replay re-executes them first.
+     Round 5 (theorems C05_inbreeding_vs_direct, C05_direct_vs_analytic_1D/_ND, C05_ND_clamp_exact, C05_clamp_table, C05_inb_dispatch):
+     (i) grids over-shooting [0,1] by 1e-3 … 2^-8 on the semi-analytic path in 1-3 dimensions — at that size the two readings of
+     the grid (1-D: every statement reads the clamped copy; 2-D…: slopes read the caller's array, betainc the clamped copy) differ
+     measurably, so K checks the generated `clampTable` entry by entry and L3 compares with the exact integral over [0,1] of the
+     interpolant the theorems name; (ii) the proved first-order bound |direct - semi-analytic| <= 2 C(n,d) n hmax * mass(|phi|) on
+     fine grids; (iii) F -> 0 in ONE population while the others keep their F (limit = the mixed-zero call, which must not be
+     delegated), and which private function `from_phi_inbreeding` ends up calling (K, delegation table).
 """
 import math, itertools, warnings, json
 import numpy as np
@@ -67,6 +74,28 @@ def hat_moments(n, xx):
         wt = w * h / 2
         B = binom_pmf(n, pts)                     # (n+1, q)
         lam = (pts - a) / h                       # weight of the right node
+        H[:, k] += B @ (wt * (1 - lam))
+        H[:, k + 1] += B @ (wt * lam)
+    return H
+
+def hat_moments_overshoot(n, xx):
+    """like `hat_moments`, but for a grid that leaves [0,1]: the hats live on the grid as given (the density is piecewise linear
+    between the caller's nodes) and only the part of every interval inside [0,1] is integrated (the sampling probability is
+    defined there) — what C05_ND_clamp_exact says a stage of the 2-D…5-D versions computes"""
+    xx = np.asarray(xx, dtype=float)
+    N = len(xx)
+    q = (n + 2) // 2 + 2
+    t, w = gauss_legendre(q)
+    H = np.zeros((n + 1, N))
+    for k in range(N - 1):
+        a, b = xx[k], xx[k + 1]
+        lo, hi = min(max(a, 0.0), 1.0), min(max(b, 0.0), 1.0)
+        if not hi > lo:
+            continue
+        pts = lo + (t + 1) * (hi - lo) / 2
+        wt = w * (hi - lo) / 2
+        B = binom_pmf(n, pts)
+        lam = (pts - a) / (b - a)
         H[:, k] += B @ (wt * (1 - lam))
         H[:, k + 1] += B @ (wt * lam)
     return H
@@ -680,6 +709,111 @@ def l3_paths_agree(chk, ctx, rng, count):
                 chk.fail('from_phi:direct-vs-analytic', 'direct and semi-analytic paths do not converge: relative difference %.3g at %d points, %.3g at %d points (n=%d, %dD)'
                          % (diffs[0], N0, diffs[1], 2 * N0 - 1, n, d), dict(kind='refine', d=d, n=n, N0=N0, coef=[list(map(float, cf)) for cf in coef]))
 
+# =========================================================================== round 5: large over-shoot, proved bounds
+def k_overshoot_big(chk, ctx, rng, count):
+    """semi-analytic path on grids that leave [0,1] by 1e-3 … 2^-8 at one or both ends.  At 1e-16 the copy of the grid a statement
+    reads makes no measurable difference; here it does, so K pins every entry of the generated `clampTable` (1-D: slopes and c1
+    from the clamped copy; 2-D…: from the caller's array; betainc always on the clamped copy) and L3 compares with the integral
+    the theorems name (C05_1D_exact on the clamped grid; C05_ND_clamp_exact: interpolant on the caller's grid, integrated over the
+    part of each interval inside [0,1])."""
+    for it in range(count):
+        d = [1, 2, 1, 3, 2][it % 5]
+        N = int(rng.integers(3, {1: 9, 2: 6, 3: 4}[d] + 1))
+        g, _ = gen_grid(rng, N, 12)
+        delta = [1e-3, 2.0 ** -8, 2.0 ** -10][it % 3]
+        mode = ['both', 'low', 'high'][(it // 3) % 3]
+        g = np.array(g, dtype=float)
+        if mode in ('both', 'low'): g[0] = -delta
+        if mode in ('both', 'high'): g[-1] = 1.0 + delta
+        grids = [g.copy() for _ in range(d)]
+        if d == 3 and it % 2:
+            grids[2] = gen_grid(rng, N, 12)[0]                     # third axis on an ordinary grid
+        ns = [int(rng.integers(1, {1: 12, 2: 6, 3: 3}[d] + 1)) for _ in range(d)]
+        phi, pk = gen_phi(rng, [np.clip(x, 0, 1) for x in grids], 12, kind=['random', 'smooth', 'signed'][it % 3])
+        c = dict(kind='overshoot-large', d=d, path='analytic', ns=ns, grids=grids, phi=phi, het=None, props=None, force=False,
+                 mask_corners=False, pop_ids=None, overshoot='large:%s:%g' % (mode, delta), phi_kind=pk, bits=12)
+        check_overshoot_big(chk, ctx, c)
+
+def check_overshoot_big(chk, ctx, c):
+    dadi = ctx['dadi']
+    d = c['d']; ns = c['ns']; grids = c['grids']; phi = np.asarray(c['phi'], dtype=float)
+    inp = small(c)
+    res = call_from_phi(dadi, c, record=True)
+    chk.l3(('overshoot-large', d, c['overshoot']))
+    chk.stat('overshoot-large:%dD' % d)
+    if res['err'] is not None:
+        chk.fail('from_phi:%dD:analytic:overshoot-large:raises:%s' % (d, res['err']), 'from_phi on a grid leaving [0,1] (%s) raises %s: %s'
+                 % (c['overshoot'], res['err'], res.get('msg')), inp)
+        return
+    data = np.asarray(res['fs'].data, dtype=float)
+    if not np.all(np.isfinite(data)):
+        chk.fail('from_phi:%dD:analytic:overshoot-large:nonfinite' % d, 'from_phi on a grid leaving [0,1] (%s) returns non-finite entries: a betainc argument '
+                 'is not clamped' % c['overshoot'], inp)
+    else:
+        # The property text speaks of "the piecewise-linear interpolant of the density": on a grid leaving [0,1] that can be read on
+        # the caller's nodes or on the clamped ones.  L3 accepts either reading (which one the code takes, statement by statement, is
+        # pinned by K against the generated `clampTable`): 1-D takes the clamped grid, 2-D… the caller's (C05_ND_clamp_exact).
+        refs = [contract(phi, [hat_moments(n, np.clip(g, 0, 1)) for n, g in zip(ns, grids)]),
+                contract(phi, [hat_moments_overshoot(n, g) for n, g in zip(ns, grids)])]
+        errs = [float(np.max(np.abs(data - r))) / (float(np.max(np.abs(r))) or 1.0) for r in refs]
+        chk.stat('overshoot-large:reading:%s' % ('clamped' if errs[0] <= errs[1] else 'caller'))
+        if not min(errs) <= 1e-9:
+            chk.fail('from_phi:%dD:analytic:overshoot-large:value' % d, 'grid leaving [0,1] (%s): result differs by %.3g (relative) from the exact integral over [0,1] against the '
+                     'interpolant on the clamped grid and by %.3g from the one on the caller\'s grid' % (c['overshoot'], errs[0], errs[1]), inp)
+    if have_driver(ctx):
+        m = model_from_phi(ctx['driver'], c)
+        op = 'from_phi:%dD:analytic:overshoot-large' % d
+        if m['err'] is not None:
+            chk.k_bad(op, inp, 'a spectrum', m['err'], None)
+        else:
+            ok, err, _ = close(data, m['data'], rtol=RTOL)
+            if ok and res['fn'] == m['fn']: chk.k_ok(op)
+            else: chk.k_bad(op, inp, dict(fn=res['fn'], data=data), dict(fn=m['fn'], data=m['data']), err)
+
+def l3_direct_bound(chk, ctx, rng, count):
+    """the proved first-order bound between the direct and the semi-analytic path (C05_direct_vs_analytic_1D, _ND) on the real
+    code: |direct[i] - analytic[i]| <= 2 C(n,i) n hmax * trapz(|phi|) in one dimension, and in two dimensions
+    dvaErr = e0 (1 + e1) + e1 with e_a = 2 C(n_a, i_a) n_a hmax_a (entry-wise constants instead of the uniform 2^n)"""
+    dadi = ctx['dadi']
+    for it in range(count):
+        d = 1 if it % 3 != 2 else 2
+        N = {1: int(rng.integers(150, 500)), 2: int(rng.integers(30, 60))}[d]
+        kind = ['uniform', 'dadi', 'random'][it % 3]
+        if kind == 'dadi':
+            g = dadi.Numerics.default_grid(N)
+        elif kind == 'uniform':
+            g = np.linspace(0, 1, N)
+        else:
+            g = np.sort(np.concatenate([[0.0, 1.0], rng.uniform(0, 1, N - 2)]))
+            if np.any(np.diff(g) <= 0): g = np.linspace(0, 1, N)
+        g = np.array(g, dtype=float); g[0] = 0.0; g[-1] = 1.0
+        ns = [int(rng.integers(1, 7)) for _ in range(d)]
+        phi, pk = gen_phi(rng, [g] * d, 0, kind=['random', 'signed', 'spiky', 'neutral-like'][it % 4])
+        c = dict(kind='direct-bound', d=d, path='analytic', ns=ns, grids=[g.copy() for _ in range(d)], phi=phi, het=None, props=None, force=False, mask_corners=False)
+        check_direct_bound(chk, ctx, c, (kind, pk))
+
+def check_direct_bound(chk, ctx, c, tag=None):
+    dadi = ctx['dadi']
+    d = c['d']; ns = c['ns']; g = np.asarray(c['grids'][0], dtype=float); phi = np.asarray(c['phi'], dtype=float)
+    ra = call_from_phi(dadi, dict(c, force=False, path='analytic')); rd = call_from_phi(dadi, dict(c, force=True, path='direct'))
+    chk.l3(('direct-bound', d, tag))
+    inp = small(c)
+    if ra['err'] or rd['err']:
+        chk.fail('from_phi:direct-bound:raises', 'raises %r / %r' % (ra['err'], rd['err']), inp); return
+    A = np.asarray(ra['fs'].data, dtype=float); D = np.asarray(rd['fs'].data, dtype=float)
+    hmax = float(np.max(np.diff(g)))
+    mass = trap_mass(np.abs(phi), [g] * d)
+    eps = [np.array([2.0 * math.comb(n, i) * n * hmax for i in range(n + 1)]) for n in ns]
+    if d == 1:
+        bound = eps[0] * mass
+    else:
+        bound = (eps[0][:, None] * (1 + eps[1][None, :]) + eps[1][None, :]) * mass
+    viol = np.abs(A - D) - bound * (1 + 1e-9) - 1e-12 * mass
+    if np.any(viol > 0):
+        bad = np.unravel_index(int(np.argmax(viol)), A.shape)
+        chk.fail('from_phi:%dD:direct-bound' % d, 'entry %r: direct %r, semi-analytic %r; the difference exceeds the proved bound %.3g (hmax %.3g, mass of |phi| %.3g, ns=%r)'
+                 % (list(map(int, bad)), float(D[bad]), float(A[bad]), float(np.asarray(bound)[bad]), hmax, mass, ns), inp)
+
 # =========================================================================== betainc, cached_dbeta
 def k_betainc(chk, ctx, rng, count):
     """`scipy.special.betainc(a, b, x)` at the integer arguments the code uses = the binomial tail of the model"""
@@ -922,24 +1056,30 @@ def fixed_inb_cases(rng):
                         phi_kind=pk, bits=12, mask_corners=False, fixed=True))
     return out
 
-def call_inb(dadi, c, Fs=None):
+def call_inb(dadi, c, Fs=None, record=False):
     S = dadi.Spectrum
+    fn = None
     try:
         with np.errstate(all='ignore'):
             grids = c['_live_grids'] if c.get('_live_grids') is not None else [np.array(g, dtype=float) for g in c['grids']]
-            fs = S.from_phi_inbreeding(np.array(c['phi'], dtype=float), list(c['ns']), grids,
-                                       list(c['Fs'] if Fs is None else Fs), list(c['pls']), mask_corners=c.get('mask_corners', False),
-                                       het_ascertained=c.get('het'))
-        return dict(fs=fs, err=None)
+            args = (np.array(c['phi'], dtype=float), list(c['ns']), grids, list(c['Fs'] if Fs is None else Fs), list(c['pls']))
+            kw = dict(mask_corners=c.get('mask_corners', False), het_ascertained=c.get('het'))
+            if record:
+                with Recorder(dadi) as r:
+                    fs = S.from_phi_inbreeding(*args, **kw)
+                fn = r.first
+            else:
+                fs = S.from_phi_inbreeding(*args, **kw)
+        return dict(fs=fs, err=None, fn=fn)
     except Exception as e:
-        return dict(fs=None, err=type(e).__name__, msg=str(e)[:200])
+        return dict(fs=None, err=type(e).__name__, msg=str(e)[:200], fn=fn)
 
 def check_inbreeding(chk, ctx, c):
     dadi = ctx['dadi']
     inp = small(c)
     d = c['d']; ns = c['ns']; grids = c['grids']; phi = np.asarray(c['phi'], dtype=float)
     Fs = list(c['Fs']); pls = list(c['pls'])
-    res = call_inb(dadi, c)
+    res = call_inb(dadi, c, record=True)
     nzero = sum(1 for F in Fs if F == 0)
     mode = 'all-zero' if nzero == d else ('mixed-zero' if nzero else 'positive')
     chk.l3(('inbreeding', d, mode, c.get('het'), tuple(sorted(set(pls))), c.get('overshoot')))
@@ -959,6 +1099,10 @@ def check_inbreeding(chk, ctx, c):
                 chk.fail('from_phi_inbreeding:%dD:nonfinite' % d, 'non-finite entries for Fs=%r ploidys=%r' % (Fs, pls), inp)
         else:
             finite = True
+            want_fn = ('_from_phi_%dD_direct' % d) if mode == 'all-zero' else ('_from_phi_%dD_direct_inbreeding' % d)
+            if res.get('fn') is not None and res['fn'] != want_fn:
+                chk.fail('from_phi_inbreeding:%dD:dispatch' % d, 'Fs=%r: integrated by %s, expected %s (the call is handed to plain from_phi iff ALL inbreeding coefficients are 0)'
+                         % (Fs, res['fn'], want_fn), inp)
             if mode == 'all-zero':
                 ref = ref_direct(phi, ns, grids, c.get('het'))
             else:
@@ -1017,8 +1161,10 @@ def check_inbreeding(chk, ctx, c):
             Fpos = [min(F, 1 - 1e-10) for F in Fs if F > 0]
             rt = 1e-9 + (4e-15 * max((1 - F) / F for F in Fpos) if Fpos else 0)
             ok, e, _ = close(np.asarray(res['fs'].data), arr, rtol=rt)
-            if ok and float(Fraction(ex)) == float(res['fs'].extrap_x): chk.k_ok(op)
-            else: chk.k_bad(op, inp, np.asarray(res['fs'].data), arr, e)
+            # which private function integrated (the delegation test `inbDelegates` is read off the source)
+            same_fn = (res.get('fn') is None) or (res['fn'] == fn)
+            if ok and same_fn and float(Fraction(ex)) == float(res['fs'].extrap_x): chk.k_ok(op)
+            else: chk.k_bad(op, inp, dict(fn=res.get('fn'), data=np.asarray(res['fs'].data)), dict(fn=fn, data=arr), e)
         elif out.startswith('err ') and err_class(out[4:]) == res['err']:
             chk.k_ok(op + ':refusal')
         else:
@@ -1057,6 +1203,42 @@ def l3_inbreeding_limit(chk, ctx, rng, count):
         if not (ok and ratio_ok):
             chk.fail('from_phi_inbreeding:F->0', 'inbreeding path does not approach the binomial path proportionally to F: relative differences %r at F = 1e-2, 1e-3, 1e-4 (ns=%r ploidys=%r)'
                      % (errs, c['ns'], c['pls']), dict(small(c), kind='inb-limit'))
+
+def l3_inbreeding_limit_mixed(chk, ctx, rng, count):
+    """F -> 0+ in ONE population while the others keep their inbreeding coefficient: the spectrum approaches, proportionally to F,
+    the spectrum of the call with F exactly 0 in that population (C05_inbreeding_vs_direct with eps_a = 0 for F_a = 0;
+    C05_inb_dispatch: that call is NOT handed to plain from_phi)"""
+    dadi = ctx['dadi']
+    for it in range(count):
+        d = [2, 2, 3][it % 3]
+        c = gen_inb_case(rng, ctx['tier'], d=d)
+        c['het'] = None; c['mask_corners'] = False; c['overshoot'] = None
+        c['grids'] = [np.clip(g, 0, 1) for g in c['grids']]
+        c['phi'] = np.abs(np.asarray(c['phi'])) + 0.1
+        a = int(rng.integers(d))
+        Fs = [float(F) if 0 < F < 0.95 else 0.25 for F in c['Fs']]
+        F0 = list(Fs); F0[a] = 0.0
+        base = call_inb(dadi, c, Fs=F0)
+        chk.l3(('inb-limit-mixed', d, a, tuple(c['pls'])))
+        inp = dict(small(dict(c, Fs=F0)), kind='inbreeding')
+        if base['err'] or not np.all(np.isfinite(np.asarray(base['fs'].data))):
+            chk.fail('from_phi_inbreeding:mixed-zero-F:nonfinite', 'Fs=%r raises / is non-finite (%r)' % (F0, base['err']), inp); continue
+        D = np.asarray(base['fs'].data, dtype=float); sc = float(np.max(np.abs(D))) or 1.0
+        errs = []
+        for F in (1e-2, 1e-3, 1e-4):
+            Fx = list(Fs); Fx[a] = F
+            r = call_inb(dadi, c, Fs=Fx)
+            if r['err'] or not np.all(np.isfinite(np.asarray(r['fs'].data))):
+                errs = None; break
+            errs.append(float(np.max(np.abs(np.asarray(r['fs'].data) - D))) / sc)
+        if errs is None:
+            chk.fail('from_phi_inbreeding:limit:raises', 'small F in population %d raises / non-finite' % a, inp); continue
+        P = c['pls'][a]; n = c['ns'][a]
+        ok = all(e <= 3.0 * P * n * F + 1e-7 for e, F in zip(errs, (1e-2, 1e-3, 1e-4)))
+        ratio_ok = (errs[0] < 1e-12) or (0.03 <= errs[1] / max(errs[0], 1e-300) <= 0.3 and 0.03 <= errs[2] / max(errs[1], 1e-300) <= 0.3)
+        if not (ok and ratio_ok):
+            chk.fail('from_phi_inbreeding:F->0:mixed', 'Fs=%r (F = 0 in population %d) is not the limit of small F there: relative differences %r at F = 1e-2, 1e-3, 1e-4 '
+                     '(ns=%r ploidys=%r)' % (F0, a, errs, c['ns'], c['pls']), inp)
 
 def k_bbconv(chk, ctx, rng, count):
     dadi = ctx['dadi']; N = dadi.Numerics
@@ -1513,13 +1695,13 @@ def run(chk, ctx):
                  'ploidies and running through the options (ascertained on each population, plain, F = 0 in one / all populations, direct, semi-analytic, admix_props, look-alike grid, other F, other ploidy, repeats), '
                  'each call checked on its own against the independent reference')
     chk.unproved = [
-        'the F -> 0 limit of the inbreeding path (agreement with the binomial path) is a limit statement: checked numerically (difference proportional to F for F = 1e-2, 1e-3, 1e-4), not proved',
-        'BetaBinomln / multinomln work in log space through gammaln / betaln: the model evaluates their exponentials exactly (ratio of rising factorials, factorials); that scipy agrees is validated by correspondence (BetaBinomConvolution, 1e-9 + cancellation allowance), the sums C05_betabinom_sum / C05_conv_sum are proved for the exact values',
+        'the F -> 0+ limit of the inbreeding path is proved with an explicit but crude constant (C05_inbreeding_vs_direct: (P+1)^m m 2^P P^2 F/(1-F) per population, plus 2^n n 1e-20 for the end-point patch); the sharp rate (about P n F, what L3 checks at F = 1e-2, 1e-3, 1e-4) is numerical',
+        'BetaBinomln / multinomln work in log space through gammaln / betaln: the model evaluates their exponentials exactly (ratio of rising factorials, factorials); that scipy agrees is validated by correspondence (BetaBinomConvolution, 1e-9 + cancellation allowance), the sums C05_betabinom_sum / C05_conv_sum and the limit C05_conv_limit are proved for the exact values',
         'float round-off: the implementation agrees with the exact rational model to 1e-9 of the array scale (inbreeding: plus the cancellation error of betaln at arguments (1-F)/F); IEEE arithmetic is not modelled',
         'scipy.special.betainc / comb, numpy.trapz / dot / allclose are parameters of the model (betainc and comb are compared with their exact values on every run; trapz, dot through the correspondence of whole results)',
-        'in d >= 2 dimensions with a grid over-shooting [0,1] the slopes use the caller\'s grid and the incomplete-beta differences the clamped one (as the code does): C05_ND_mass / C05_ND_marginal / C05_ND_iterated assume nodes inside [0,1]; the 1e-16 discrepancy outside is only covered by correspondence and the L3 quadrature (tolerance 1e-9)',
-        'direct and semi-analytic paths "agree" only up to the trapezoid discretisation error: checked as second-order convergence under grid refinement, not proved']
-    chk.assumptions += ['grids are strictly increasing (C05_mass, C05_ND_mass, C05_ND_marginal assume distinct nodes; C05_ND_* additionally assume nodes inside [0,1], the 1-D theorems hold for over-shooting grids through the clamp)',
+        'in d >= 2 dimensions with a grid over-shooting [0,1]: what a stage computes is proved exactly (C05_ND_clamp_exact, C05_ND_clamp_mass) and its distance to the clamped-grid computation is bounded per stage (C05_ND_overshoot: delta x total variation); the composition of that bound through all d stages, and C05_ND_mass / C05_ND_marginal / C05_ND_iterated on over-shooting grids, are not proved (K at 1e-16 and at 1e-3 … 2^-8, L3 quadrature)',
+        'direct vs semi-analytic: proved to first order in the grid spacing for every density (C05_direct_vs_analytic_1D, _ND); the second-order rate for smooth densities is numerical (refinement check)']
+    chk.assumptions += ['grids are strictly increasing (C05_mass, C05_ND_mass, C05_ND_marginal assume distinct nodes; C05_ND_* additionally assume nodes inside [0,1], the 1-D theorems hold for over-shooting grids through the clamp); C05_inbreeding_vs_direct assumes grids that start at 0 and end at 1 (the code patches the end points to 1e-20 / 1 - 1e-20 whatever the grid)',
                         'sample sizes 1..40 (K); the theorems hold for every size']
     # ---- parameters of the model
     k_betainc(chk, ctx, rng, 80 if q else 600)
@@ -1549,6 +1731,8 @@ def run(chk, ctx):
     k_private(chk, ctx, rng, 10 if q else 60)
     k_refusals(chk, ctx, rng, 22 if q else 110)
     l3_paths_agree(chk, ctx, rng, 8 if q else 40)
+    l3_direct_bound(chk, ctx, rng, 6 if q else 30)
+    k_overshoot_big(chk, ctx, rng, 15 if q else 90)
     # ---- inbreeding
     for c in fixed_inb_cases(rng):                     # pairwise different ploidies / F per population, every order
         check_inbreeding(chk, ctx, c)
@@ -1568,6 +1752,7 @@ def run(chk, ctx):
         if out.startswith('err ValueError') and r['err'] == 'ValueError': chk.k_ok('from_phi_inbreeding:refusal')
         else: chk.k_bad('from_phi_inbreeding:refusal', small(c), r['err'], out[:60], None)
     l3_inbreeding_limit(chk, ctx, rng, 6 if q else 40)
+    l3_inbreeding_limit_mixed(chk, ctx, rng, 4 if q else 24)
     # ---- populations listed in any order; call history
     l3_sessions(chk, ctx, rng, 2 if q else 8)
     l3_marginalize_orders(chk, ctx, rng, 2 if q else 8)
@@ -1591,6 +1776,10 @@ def replay(chk, ctx, data):
         check_args_modified(chk, ctx, c)
     elif kind == 'from_phi':
         check_from_phi(chk, ctx, c)
+    elif kind == 'overshoot-large':
+        check_overshoot_big(chk, ctx, c)
+    elif kind == 'direct-bound':
+        check_direct_bound(chk, ctx, c)
     elif kind in ('linear', 'project', 'marginal'):
         check_from_phi(chk, ctx, c)
         for _ in range(5):
